@@ -56,6 +56,7 @@ structure TState where
   pos       : Nat
   max       : Nat
   endProgs  : List EndProg        -- top of the stack FIRST
+  commentLine : Bool              -- the current line holds nothing but a comment (`next_statement` said so)
 deriving Repr, Inhabited
 
 inductive Err where
@@ -66,7 +67,7 @@ inductive Err where
 deriving DecidableEq, Repr, Inhabited
 
 def TState.init : TState :=
-  { lnum := 0, parenlev := 0, continued := false, indents := [0], line := #[], pos := 0, max := 0, endProgs := [] }
+  { lnum := 0, parenlev := 0, continued := false, indents := [0], line := #[], pos := 0, max := 0, endProgs := [], commentLine := false }
 
 def slice (a : Array Nat) (i j : Nat) : List Nat := (a.extract i j).toList
 
@@ -123,7 +124,7 @@ def TState.progToken (st : TState) (e : Nat) (ty : TT) : Tok5 × TState :=
 
 /-- `move_next_line` (the reader is a list of remaining lines; "" at end of input). -/
 def TState.moveNextLine (st : TState) (line : List Nat) : TState :=
-  { st with line := line.toArray, lnum := st.lnum + 1, pos := 0, max := line.length }
+  { st with line := line.toArray, lnum := st.lnum + 1, pos := 0, max := line.length, commentLine := false }
 
 def rstripNewlines (l : List Nat) : List Nat :=
   (l.reverse.dropWhile (fun c => c = 13 || c = 10)).reverse
@@ -174,7 +175,7 @@ def nextStatement (P : Pats) (st : TState) : Except Err (List Tok5 × TState × 
           let t1 : Tok5 := { ty := .COMMENT, str := comment, start := ⟨st.lnum, pos⟩, stop := ⟨st.lnum, pos + comment.length⟩, line := lineL }
           let pos2 := pos + comment.length
           let t2 : Tok5 := { ty := .NL, str := lineL.drop pos2, start := ⟨st.lnum, pos2⟩, stop := ⟨st.lnum, lineL.length⟩, line := lineL }
-          .ok ([t1, t2], { st with pos := pos2 }, .continueLoop)
+          .ok ([t1, t2], { st with pos := pos2, commentLine := true }, .continueLoop)
         else
           let t2 : Tok5 := { ty := .NL, str := lineL.drop pos, start := ⟨st.lnum, pos⟩, stop := ⟨st.lnum, lineL.length⟩, line := lineL }
           .ok ([t2], st, .continueLoop)
@@ -344,12 +345,13 @@ def scanLine (E : Env) (P : Pats) : Nat → TState → List Tok5 → Except (Err
           else scanLine E P fuel st2 (acc ++ ts1)
     else .ok (st, acc)
 
-/-- `next_end_tokens`; `ll` is `state.last_line`: the line read before the one on which the loop stopped -/
-def nextEndTokens (E : Env) (ll : List Nat) (st : TState) : List Tok5 :=
+/-- `next_end_tokens`; `ll` is `state.last_line` (the line read before the one on which the loop stopped) and
+    `lc` is `state.last_comment_line` (that line held nothing but a comment) -/
+def nextEndTokens (ll : List Nat) (lc : Bool) (st : TState) : List Tok5 :=
   let nl : List Tok5 :=
     match ll.getLast? with
     | some c =>
-      if c ≠ 13 && c ≠ 10 && (stripSpace E ll).head? ≠ some 35 then
+      if c ≠ 13 && c ≠ 10 && !lc then
         [{ ty := .NEWLINE, str := [], start := ⟨st.lnum - 1, ll.length⟩, stop := ⟨st.lnum - 1, ll.length + 1⟩, line := [] }]
       else []
     | none => []
@@ -380,7 +382,7 @@ def tokenizeLines (E : Env) (P : Pats) : Nat → List (List Nat) → TState → 
     match lineHead E P (st.moveNextLine (lines.headD [])) with
     | .error e => .error (e, acc)
     | .ok (s, ts, cont, brk) =>
-      if brk then .ok (acc ++ ts ++ nextEndTokens E st.line.toList s)
+      if brk then .ok (acc ++ ts ++ nextEndTokens st.line.toList st.commentLine s)
       else if cont then tokenizeLines E P fuel lines.tail s (acc ++ ts)
       else
         match scanLine E P (2 * s.max + 4) s (acc ++ ts) with
